@@ -15,3 +15,26 @@ void __vf_bound(bool c, const char *msg);   // stated bound: asserted (class BOU
 void __vf_reach(const char *msg);           // reachability witness: must be reachable, otherwise the query is vacuous
 long __vf_live_allocs(void);                // heap blocks allocated and not yet freed
 }
+extern "C" {
+void __vf_expect(int id, int a, int b);      // announce a delivery that must happen (expected-delivery queue)
+void __vf_log(int id, int a, int b);         // an observer reports a delivery: must be the next expected one
+void __vf_expect_done(void);                 // every announced delivery must have happened
+void __vf_expect_throw(int kind, int code);  // the next tulz call must throw (1 tulz::Exception(code), 2 std::invalid_argument, 3 std::out_of_range)
+void __vf_on_throw(void);                    // harness hook run when the expected exception is thrown (state-unchanged check); the path ends afterwards
+int __vf_cube(int i);                        // skeleton constants of the query (concrete at symbolic-execution time)
+}
+#ifdef VF_NATIVE
+// native replay: real exceptions; classify, run the harness hook, end the run like the model does
+#include <stdexcept>
+#include <cstdlib>
+#include <cstdio>
+namespace vf {
+template<class E> inline int native_code(const E &e) { if constexpr (requires { e.type; }) return e.type; else return 0; }
+}
+#define VF_EXPECT_THROW(kind, code, stmt) do { try { stmt; } \
+  catch (const std::invalid_argument &) { if ((kind) != 2) { fprintf(stderr, "CHECK-FAILED: unexpected std::invalid_argument\n"); _Exit(1); } __vf_on_throw(); _Exit(0); } \
+  catch (const std::out_of_range &) { if ((kind) != 3) { fprintf(stderr, "CHECK-FAILED: unexpected std::out_of_range\n"); _Exit(1); } __vf_on_throw(); _Exit(0); } \
+  catch (const std::exception &e_) { if ((kind) != 1) { fprintf(stderr, "CHECK-FAILED: unexpected exception %s\n", e_.what()); _Exit(1); } __vf_on_throw(); _Exit(0); } } while (0)
+#else
+#define VF_EXPECT_THROW(kind, code, stmt) do { __vf_expect_throw(kind, code); stmt; } while (0)
+#endif
